@@ -128,7 +128,7 @@ func runC06(c *core.Ctx) {
 	}
 	for _, dsse := range []bool{false, true} {
 		for _, runDir := range []bool{false, true} {
-			for _, shape := range []string{"flat", "expired-sublayout", "expired-root-over-sublayout", "empty-layout"} {
+			for _, shape := range []string{"flat", "expired-sublayout", "expired-root-over-sublayout", "empty-layout", "expired-twin-sublayout"} {
 				for ci, ec := range cases {
 					cn++
 					if !c.Mine(cn) {
@@ -173,9 +173,14 @@ func runC06(c *core.Ctx) {
 						rootN := &gen.Nest{Level: 0, Signer: fast[0], Prep: fast[1], Sub: fast[2], Final: fast[3], Child: child, Inspect: insp("outer")}
 						// through the hook: the builder treats an empty Expires field as "use the default"
 						setExp := func(l *intoto.Layout) { l.Expires = exp }
-						if shape == "expired-sublayout" {
+						switch shape {
+						case "expired-sublayout":
 							child.LayoutHook = setExp
-						} else {
+						case "expired-twin-sublayout":
+							// two functionaries deliver the delegated step as a sublayout each (threshold 2);
+							// only the second functionary's copy carries the expiry under test
+							rootN.TwinSub, rootN.ExtraKey, rootN.TwinLayoutHook = true, fast[6], setExp
+						default:
 							rootN.LayoutHook = setExp
 						}
 						rootN.Build()
@@ -209,6 +214,16 @@ func runC06(c *core.Ctx) {
 					c.Begin(id)
 					t0 := time.Now().UTC().Truncate(time.Second)
 					obs := Verify(a)
+					if shape == "expired-twin-sublayout" {
+						// which of the two sublayouts is visited first depends on map order: repeat, and keep
+						// an accepting observation if there is one (for a future expiry: a rejecting one)
+						for rep := 0; rep < 7; rep++ {
+							o2 := Verify(a)
+							if o2.Accepted() != obs.Accepted() && o2.Accepted() == (ec.class != "future") {
+								obs = o2
+							}
+						}
+					}
 					t1 := time.Now().UTC().Truncate(time.Second).Add(time.Second)
 					c.End(id)
 					c.Eval(1)
@@ -265,6 +280,9 @@ func runC06(c *core.Ctx) {
 							if shape == "expired-sublayout" {
 								forbidden = []string{"outer", "inner"}
 							}
+							if shape == "expired-twin-sublayout" {
+								forbidden = []string{"outer"} // the sound twin may have been verified completely
+							}
 							for _, m := range markers {
 								for _, f := range forbidden {
 									if m == f {
@@ -291,7 +309,7 @@ func init() {
 	core.Register(&core.Property{
 		ID:    "C06",
 		Level: "exploration",
-		Rule: "catalogue of expiry strings: now -/+ {2s,5s,1min,1h,1d,1y,100y}, 'valid when built, verified 2.2 s after it expired', years 0001/1970/2999/9999, 22 malformed forms (empty, date only, offsets, separators, impossible dates, trailing/leading text, other date layouts), arguable forms (leap second, lower case, fraction, one-digit fields: run but not judged); thorough: + 2000 random strings and every single-character mutation of a valid timestamp; x 2 wrappers x 2 entry points x {layout object as signed in memory, layout loaded from its file} x verifier time zones {UTC, America/Los_Angeles, Asia/Tokyo, Pacific/Kiritimati} (by worker) x {flat chain with inspection, valid root over an expired/undated sublayout, expired/undated root over a valid sublayout with its own inspection, layout without steps and inspections}. Oracle: call bracket [t0,t1] sampled around the call (no clock of our own), marker files, trace automaton. " +
+		Rule: "catalogue of expiry strings: now -/+ {2s,5s,1min,1h,1d,1y,100y}, 'valid when built, verified 2.2 s after it expired', years 0001/1970/2999/9999, 22 malformed forms (empty, date only, offsets, separators, impossible dates, trailing/leading text, other date layouts), arguable forms (leap second, lower case, fraction, one-digit fields: run but not judged); thorough: + 2000 random strings and every single-character mutation of a valid timestamp; x 2 wrappers x 2 entry points x {layout object as signed in memory, layout loaded from its file} x verifier time zones {UTC, America/Los_Angeles, Asia/Tokyo, Pacific/Kiritimati} (by worker) x {flat chain with inspection, valid root over an expired/undated sublayout, expired/undated root over a valid sublayout with its own inspection, layout without steps and inspections, a delegated step delivered as sublayouts by two functionaries of which the second copy is expired/undated (8 verifications each)}. Oracle: call bracket [t0,t1] sampled around the call (no clock of our own), marker files, trace automaton. " +
 			"non-trivial = the layout signature phase passed; distinct = (class, label, wrapper, entry point, nesting)",
 		Assumptions: []string{"an expiry inside the call bracket [t0,t1] is inconclusive", "strings of arguable well-formedness (leap second, lower-case t/z, fractional seconds, one-digit fields) are not judged", "a rejected control with a future expiry is inconclusive (observation floor on accepted controls)"},
 		Workers:     func(string) int { return 16 },
